@@ -1,6 +1,7 @@
 /- C03 line-protocol driver: `lake env lean --run Verif/C03/Driver.lean` -/
 import Verif.Common.Proto
 import Verif.C03.Model
+import Verif.C03.LexSpec
 open Lean Verif.Proto Verif.C03 Verif.Codec
 
 namespace Verif.C03.Driver
@@ -124,18 +125,34 @@ def handle (j : Json) : Except String Json := do
       let re : Json := match dec with
         | .ok d => jRes cps (encode o d)
         | .error er => jErr (errTag er)
-      pure (Json.mkObj [("text", cps text), ("toks", jList jTok toks), ("dec", jRes jEds dec), ("re", re)])
+      let ltoks : Json := match Verif.C03.Lex.lex text with
+        | some ts => jList jTok ts
+        | none => jErr "EDSSyntaxError"
+      pure (Json.mkObj [("text", cps text), ("toks", jList jTok toks), ("dec", jRes jEds dec), ("re", re),
+                        ("ltoks", ltoks), ("ldec", jRes jEds (Verif.C03.Lex.decodeText text)),
+                        ("lexok", Json.bool (Verif.C03.Lex.lexOKb o e))])
   | "docs" => do
     let es ← (← getArr j "docs").mapM ofEds
     let o ← ofOpts (← j.getObjVal? "opts")
     if es.any (fun e => !e.nodes.isEmpty && !e.targetsOk) then pure (jErr "KeyError") else
     let toks := es.flatMap (toksE o)
-    pure (Json.mkObj [("text", cps (dumpsText o es)), ("dec", jRes (jList jEds) (loadsToks toks))])
+    pure (Json.mkObj [("text", cps (dumpsText o es)), ("dec", jRes (jList jEds) (loadsToks toks)),
+                      ("ldec", jRes (jList jEds) (Verif.C03.Lex.loadsText (dumpsText o es)))])
   | "parse" => do
     let toks ← (← getArr j "toks").mapM ofTok
     let api ← getStr j "api"
     if api = "decode" then pure (jRes jEds (decodeOne toks))
     else pure (jRes (jList jEds) (loadsToks toks))
+  | "lextext" => do
+    -- text level: the model's lexer, then the model's parser
+    let text ← getCps j "text"
+    let api ← getStr j "api"
+    let ltoks : Json := match Verif.C03.Lex.lex text with
+      | some ts => jList jTok ts
+      | none => jErr "EDSSyntaxError"
+    let dec : Json := if api = "decode" then jRes jEds (Verif.C03.Lex.decodeText text)
+      else jRes (jList jEds) (Verif.C03.Lex.loadsText text)
+    pure (Json.mkObj [("toks", ltoks), ("dec", dec)])
   | "json" => do
     let e ← ofEds (← j.getObjVal? "eds")
     let p ← getBool j "properties"
